@@ -51,7 +51,7 @@ def fault_for(kind, victim, tick, token=("fault",)):
     raise ValueError(kind)
 
 
-def sweep(case, base, rng, one, victims, kinds, per_group, extra_plan=()):
+def sweep(case, base, rng, one, victims, kinds, per_group, extra_plan=(), pairs=0):
     """Run `case` with one fault at every (sampled) tick, per victim and kind.
 
     `one(case)` runs a case through the oracle and returns its Outcome; the sweep stops at the
@@ -78,3 +78,15 @@ def sweep(case, base, rng, one, victims, kinds, per_group, extra_plan=()):
                 out = one(variant)
                 if out.violations:
                     return
+    # seeded pairs of cancellations: two victims (or one victim twice) in one run
+    victims = list(victims)
+    for _ in range(pairs if victims and base.ticks > 1 else 0):
+        first = rng.randint(1, base.ticks)
+        second = min(base.ticks, first + rng.choice([0, 0, 1, 2, 3, 7, 15]))
+        variant = dict(case)
+        variant["plan"] = list(extra_plan) + [
+            fault_for("cancel", rng.choice(victims), first, token=("pair", 1)),
+            fault_for("cancel", rng.choice(victims), second, token=("pair", 2))]
+        out = one(variant)
+        if out.violations:
+            return
